@@ -65,11 +65,14 @@ func main() {
 		templateTie(r, p)
 	}
 	callSeqTie(r, scratch)
+	r.Extra("tie_done_s", time.Since(t0).Seconds())
 
 	// ---- 2. probe histories
 	if probe != nil {
 		runProbeHistories(r, probe, snapshot, work)
 	}
+
+	r.Extra("probe_done_s", time.Since(t0).Seconds())
 
 	// ---- 2b. the two known contract breaks (jumps out of / into io blocks)
 	runQuirkScenarios(r, binDir, snapshot, work)
